@@ -273,7 +273,7 @@ class Exec:
                     results.append((pc, ("ERROR", callee), mem))
                     return
                 argv = self._split_args(a)
-                vals = [self._val(env, x.split(" ")[-1], self._argty(x)) for x in argv]
+                vals = [self._argval(env, x) for x in argv]
                 r = self.stub(callee, vals, pc, mem)
                 if r is NotImplemented:
                     if callee in self.mod.funcs:
@@ -476,6 +476,17 @@ class Exec:
                 return
             raise Unsupported("instruction: " + ins)
         raise Unsupported("fell off block %s of %s" % (block, fname))
+
+    def _argval(self, env, x):
+        """one call argument: SSA value / constant, or the address of a global (a message string handed on to an error
+        routine is an opaque ('global', name) value: nothing reads through it)"""
+        m = re.search(r"getelementptr inbounds \(.*?\* (@[\w.$]+),", x)
+        if m:
+            return ("global", m.group(1))
+        last = x.split(" ")[-1]
+        if last.startswith("@"):
+            return ("global", last)
+        return self._val(env, last, self._argty(x))
 
     @staticmethod
     def _split_args(a):
